@@ -220,6 +220,25 @@ WITNESSES = [
 ]
 
 
+def substore_context(ctx):
+    """the inline Storage SCP a C-GET / C-MOVE requestor runs (`Association._c_store_scp`): the one response to a
+    C-STORE sub-operation travels on the request's context - also when the SOP class is accepted on several contexts"""
+    from harness import ctxlib as L
+    from harness.props import c18 as C18
+
+    for acc, ab, cid in C18.substore_cases(ctx, ctx.n(10, 40), ctx.n(24, None)):
+        if cid not in acc or str(acc[cid].abstract_syntax) != ab or ab == L.UPS_PUSH:
+            continue  # unaccepted ids / mismatching classes are C19's and C18's subject
+        handlers, sent, aborts = C18.run_substore(acc, ab, cid)
+        same_class = [k for k, c in acc.items() if str(c.abstract_syntax) == ab]
+        case = ["substore-context", {"acc": L.case_of_acc(acc), "ab": ab, "cid": cid}]
+        ctx.case(case, nontrivial=len(same_class) > 1, kind="substore-context:" + ("class-on-several-contexts" if len(same_class) > 1 else "single"))
+        if handlers and (len(sent) != 1 or sent[0][0] != cid):
+            ctx.fail("c-store-scp:response-on-other-context",
+                     f"C-STORE sub-operation request on context {cid} (the SOP class is accepted on {same_class}): handler saw context {handlers}, "
+                     f"response(s) sent on {[a for a, _ in sent]}", case)
+
+
 def run(ctx):
     logging.disable(logging.CRITICAL)
     _SHRUNK.clear()
@@ -242,6 +261,7 @@ def run(ctx):
     cases.extend(exhaustive_find(S, ctx.n(2, 4)))
     for i in range(0, len(cases), 5000):
         _run_batch(ctx, S, cases[i : i + 5000])
+    substore_context(ctx)
     ctx.extra["services"] = len(S)
     ctx.extra["exhaustive_scope"] = "all generator item lists of length <= %d over a 10-symbol alphabet for the 6 C-FIND services" % ctx.n(2, 4)
     ctx.note(
